@@ -101,15 +101,25 @@ def _expand_macros(lines):
         if cur is not None:
             tpl[cur].append(ln)
             continue
-        m = re.match(r'^\s*//@@use\s+(\w+)\s*(.*)$', ln)
-        if m:
-            args = dict(kv.split('=', 1) for kv in m.group(2).split())
-            for t in tpl[m.group(1)]:
-                for k, v in args.items():
-                    t = t.replace('$' + k, v)
-                out.append(t)
-            continue
         out.append(ln)
+    # expand uses repeatedly (templates may use other templates)
+    for _round in range(8):
+        changed = False
+        nxt = []
+        for ln in out:
+            m = re.match(r'^\s*//@@use\s+(\w+)\s*(.*)$', ln)
+            if m and m.group(1) in tpl:
+                args = dict(kv.split('=', 1) for kv in m.group(2).split())
+                for t in tpl[m.group(1)]:
+                    for k in sorted(args, key=len, reverse=True):
+                        t = t.replace('$' + k, args[k])
+                    nxt.append(t)
+                changed = True
+            else:
+                nxt.append(ln)
+        out = nxt
+        if not changed:
+            break
     return out
 
 
